@@ -309,8 +309,66 @@ def discharge(ob: Obligation, timeout_ms=20000, extra_axioms=(), use_cvc5=True):
             elif res == "sat":
                 ob.status = "unknown"   # no model extraction through cvc5: keep undecided
                 ob.reason = "cvc5 sat (no model imported)"
+    if ob.status == "unknown":
+        # refutation by specialisation: fix the symbols that occur non-linearly (factors of products, denominators)
+        # to 1 (then 2); any model of hyps & not goal & these extra equations IS a counter-model of the obligation
+        try:
+            nl = _nonlinear_vars(hyps + [goal])
+            for val in (1, 2):
+                if not nl:
+                    break
+                s3 = z3.Solver()
+                s3.set("timeout", 3000)
+                for h in hyps:
+                    s3.add(h)
+                for a in ax:
+                    s3.add(a)
+                s3.add(z3.Not(goal))
+                for v_ in nl:
+                    s3.add(v_ == val)
+                if s3.check() == z3.sat:
+                    ob.status = "failed"
+                    ob.model = s3.model()
+                    ob.backend = "z3 (non-linear symbols specialised)"
+                    break
+        except z3.Z3Exception:
+            pass
     ob.time_s = time.time() - t0
     return ob
+
+
+def _nonlinear_vars(terms):
+    """real/int constants that occur as a factor of a product with another non-numeral factor, in a denominator or under a power"""
+    out, seen = {}, set()
+
+    def consts(t, acc):
+        if z3.is_const(t) and t.decl().kind() == z3.Z3_OP_UNINTERPRETED:
+            acc[t.get_id()] = t
+        for c in t.children():
+            consts(c, acc)
+
+    def walk(t):
+        if t.get_id() in seen:
+            return
+        seen.add(t.get_id())
+        if z3.is_app(t):
+            k = t.decl().kind()
+            ch = t.children()
+            if k == z3.Z3_OP_MUL:
+                nn = [c for c in ch if not (z3.is_rational_value(c) or z3.is_int_value(c))]
+                if len(nn) >= 2:
+                    for c in nn:
+                        consts(c, out)
+            elif k in (z3.Z3_OP_DIV, z3.Z3_OP_IDIV) and len(ch) == 2 and not (z3.is_rational_value(ch[1]) or z3.is_int_value(ch[1])):
+                consts(ch[1], out)
+            elif k == z3.Z3_OP_POWER:
+                consts(t, out)
+            for c in ch:
+                walk(c)
+    for t in terms:
+        if not isinstance(t, bool):
+            walk(t)
+    return list(out.values())[:40]
 
 
 def _cvc5_check(z3solver, timeout_ms):
